@@ -36,6 +36,8 @@ def gen_opts(rng, scheme, must_bound=True, base=None):
     a, b = sorted([rng.randint(lo, hi), rng.randint(lo, hi)])
     if scheme == "bsdi_crypt":
         a, b = a | 1, b | 1
+    if scheme == "bsdi_crypt" and rng.random() < 0.25:
+        return dict(min_rounds=a, max_rounds=a + 1)          # a two-value window whose upper bound is even
     if kind == 0:
         o = dict(default_rounds=a)
     elif kind == 1:
